@@ -37,6 +37,7 @@ def dispatch (toks : List String) : String :=
   | "mani" :: rest => Blue.Driver.C13.handle rest
   | "block" :: rest => Blue.Driver.C10.handle ("block" :: rest)
   | "sst" :: rest => Blue.Driver.C10.handle ("sst" :: rest)
+  | "bloom" :: rest => Blue.Driver.C10.handle ("bloom" :: rest)
   | "bv" :: rest => Blue.Driver.C19.handleBv rest
   | "doc" :: rest => Blue.Driver.C19.handleDoc rest
   | "log" :: rest => Blue.Driver.C12.handle rest
